@@ -1,7 +1,216 @@
-//! Legacy capability API interpreter (filled in later).
-use crate::app::Capabilities;
-use crate::dsl::Cmd;
+//! Legacy capability API interpreter: the same program DSL, run through `CapabilityContext`
+//! (spawn / request_from_shell / stream_from_shell / notify_shell / update_app) instead of Command.
+//! Expressible subset: event, notify, chain, async scripts, all/and (as independent tasks); scripts
+//! without join handles (the capability API has none).
+use std::sync::{Arc, Mutex};
 
-pub fn run_legacy(_caps: &Capabilities, _prog: &Cmd, _inst: u32) {
-    unimplemented!("legacy host")
+use crux_core::capability::CapabilityContext;
+use futures::future::BoxFuture;
+use futures::stream::BoxStream;
+use futures::{FutureExt, StreamExt};
+
+use crate::app::{Capabilities, Event, VOp};
+use crate::dsl::{apply_f, Cmd, Instr, Leaf, Src};
+
+type Ctx = CapabilityContext<VOp, Event>;
+type SharedStream = Arc<Mutex<BoxStream<'static, u32>>>;
+
+#[derive(Clone)]
+struct Env {
+    inst: u32,
+    tid: u32,
+    seq: u32,
+    regs: [u32; 5],
+    streams: Vec<Option<SharedStream>>,
+}
+
+impl Env {
+    fn new(inst: u32, tid: u32) -> Self {
+        Env { inst, tid, seq: 0, regs: [0; 5], streams: vec![None, None, None] }
+    }
+    fn stamp(&mut self) -> [u32; 3] {
+        let s = self.seq;
+        self.seq += 1;
+        [self.inst, self.tid, s]
+    }
+    fn src(&self, s: &Src) -> u32 {
+        match s {
+            Src::C { c } => *c,
+            Src::R { r } => self.regs[*r as usize],
+        }
+    }
+}
+
+struct YieldOnce(bool);
+impl std::future::Future for YieldOnce {
+    type Output = ();
+    fn poll(mut self: std::pin::Pin<&mut Self>, cx: &mut std::task::Context<'_>) -> std::task::Poll<()> {
+        if self.0 {
+            std::task::Poll::Ready(())
+        } else {
+            self.0 = true;
+            cx.waker().wake_by_ref();
+            std::task::Poll::Pending
+        }
+    }
+}
+
+fn leaf_future(ctx: &Ctx, env: &mut Env, leaf: &Leaf) -> BoxFuture<'static, u32> {
+    match leaf {
+        Leaf::Req { tag, src } => {
+            let op = VOp { o: env.stamp(), tag: *tag, val: env.src(src) };
+            ctx.request_from_shell(op).boxed()
+        }
+        Leaf::Next { s } => {
+            let st = env.streams[*s as usize].clone().expect("stream not open");
+            futures::future::poll_fn(move |cx| st.lock().unwrap().poll_next_unpin(cx).map(|o| o.unwrap_or(0))).boxed()
+        }
+        Leaf::Joinh { .. } => panic!("join handles do not exist in the capability API"),
+    }
+}
+
+fn run_script(ctx: Ctx, code: Arc<Vec<Instr>>, mut env: Env) -> BoxFuture<'static, ()> {
+    async move {
+        let mut pc: usize = 0;
+        while pc < code.len() {
+            match &code[pc] {
+                Instr::Emit { tag, src } => {
+                    let val = env.src(src);
+                    ctx.update_app(Event::Em { o: env.stamp(), tag: *tag, val });
+                    pc += 1;
+                }
+                Instr::Notify { tag, src } => {
+                    let val = env.src(src);
+                    ctx.notify_shell(VOp { o: env.stamp(), tag: *tag, val }).await;
+                    pc += 1;
+                }
+                Instr::Req { tag, src, dst } => {
+                    let val = env.src(src);
+                    let op = VOp { o: env.stamp(), tag: *tag, val };
+                    env.regs[*dst as usize] = ctx.request_from_shell(op).await;
+                    pc += 1;
+                }
+                Instr::Open { tag, src, s } => {
+                    let val = env.src(src);
+                    let op = VOp { o: env.stamp(), tag: *tag, val };
+                    env.streams[*s as usize] = Some(Arc::new(Mutex::new(ctx.stream_from_shell(op).boxed())));
+                    pc += 1;
+                }
+                Instr::Next { s, dst, els } => {
+                    let st = env.streams[*s as usize].clone().expect("stream not open");
+                    match futures::future::poll_fn(move |cx| st.lock().unwrap().poll_next_unpin(cx)).await {
+                        Some(v) => {
+                            env.regs[*dst as usize] = v;
+                            pc += 1;
+                        }
+                        None => {
+                            env.regs[*dst as usize] = 0;
+                            pc = (*els as usize) - 1;
+                        }
+                    }
+                }
+                Instr::Goto { pc: p } => pc = (*p as usize) - 1,
+                Instr::Map { f, reg } => {
+                    env.regs[*reg as usize] = apply_f(f, env.regs[*reg as usize]);
+                    pc += 1;
+                }
+                Instr::Spawn { script, .. } => {
+                    let mut child = env.clone();
+                    child.tid = script.tid;
+                    child.seq = 0;
+                    child.streams = vec![None, None, None];
+                    ctx.spawn(run_script(ctx.clone(), Arc::new(script.code.clone()), child));
+                    pc += 1;
+                }
+                Instr::Abort { .. } | Instr::Joinh { .. } => panic!("join handles do not exist in the capability API"),
+                Instr::Join { leaves, dst } => {
+                    let futs: Vec<_> = leaves.iter().map(|l| leaf_future(&ctx, &mut env, l)).collect();
+                    let vals = futures::future::join_all(futs).await;
+                    for (i, v) in vals.into_iter().enumerate() {
+                        let d = dst.get(i).copied().unwrap_or(0) as usize;
+                        if d != 0 {
+                            env.regs[d] = v;
+                        }
+                    }
+                    pc += 1;
+                }
+                Instr::Select { leaves, dst, idx } => {
+                    let futs: Vec<_> = leaves.iter().map(|l| leaf_future(&ctx, &mut env, l)).collect();
+                    let (v, i, rest) = futures::future::select_all(futs).await;
+                    drop(rest);
+                    if *dst != 0 {
+                        env.regs[*dst as usize] = v;
+                    }
+                    if *idx != 0 {
+                        env.regs[*idx as usize] = (i + 1) as u32;
+                    }
+                    pc += 1;
+                }
+                Instr::Yield => {
+                    YieldOnce(false).await;
+                    pc += 1;
+                }
+            }
+        }
+    }
+    .boxed()
+}
+
+/// the chain `root.stages.then_send(sink)` as a script (the capability API has no builders)
+fn chain_code(root: &crate::dsl::Root, stages: &[crate::dsl::Stage], sink: &crate::dsl::Sink) -> Vec<Instr> {
+    let mut body = vec![];
+    for st in stages {
+        body.push(Instr::Map { f: st.f.clone(), reg: 1 });
+        if st.k != "map" {
+            body.push(Instr::Req { tag: st.tag, src: Src::R { r: 1 }, dst: 1 });
+        }
+    }
+    if root.k == "req" {
+        let mut code = vec![Instr::Req { tag: root.tag, src: Src::C { c: root.val }, dst: 1 }];
+        code.extend(body);
+        code.push(Instr::Emit { tag: sink.tag, src: Src::R { r: 1 } });
+        code
+    } else {
+        let n = body.len() as u32;
+        let mut code = vec![
+            Instr::Open { tag: root.tag, src: Src::C { c: root.val }, s: 1 },
+            Instr::Next { s: 1, dst: 1, els: n + 5 },
+        ];
+        code.extend(body);
+        code.push(Instr::Emit { tag: sink.tag, src: Src::R { r: 1 } });
+        code.push(Instr::Goto { pc: 2 });
+        code
+    }
+}
+
+pub fn run_legacy(caps: &Capabilities, prog: &Cmd, inst: u32) {
+    let ctx = caps.op.context.clone();
+    match prog {
+        Cmd::Done { .. } => {}
+        Cmd::Event { tid, tag, val, .. } => {
+            let code = vec![Instr::Emit { tag: *tag, src: Src::C { c: *val } }];
+            ctx.spawn(run_script(ctx.clone(), Arc::new(code), Env::new(inst, *tid)));
+        }
+        Cmd::Notify { tid, tag, val, .. } => {
+            let code = vec![Instr::Notify { tag: *tag, src: Src::C { c: *val } }];
+            ctx.spawn(run_script(ctx.clone(), Arc::new(code), Env::new(inst, *tid)));
+        }
+        Cmd::Chain { tid, root, stages, sink, .. } => {
+            let code = chain_code(root, stages, sink);
+            ctx.spawn(run_script(ctx.clone(), Arc::new(code), Env::new(inst, *tid)));
+        }
+        Cmd::Async { tid, code, .. } => {
+            ctx.spawn(run_script(ctx.clone(), Arc::new(code.clone()), Env::new(inst, *tid)));
+        }
+        Cmd::And { a, b, .. } => {
+            run_legacy(caps, a, inst);
+            run_legacy(caps, b, inst);
+        }
+        Cmd::All { cs, .. } => {
+            for c in cs {
+                run_legacy(caps, &c.c, inst);
+            }
+        }
+        other => panic!("not expressible with the capability API: {other:?}"),
+    }
 }
